@@ -131,9 +131,11 @@ CLAIMED = {
     technique='Coq proof (abstraction function over concat) + vm_compute correspondence + list-model oracle', design='§5 C14'),
  'C19': dict(
     text=('Coq theorems over the model of __str__: for every content of at most MAX_CHARS*4 bits the printed hex digits and binary tail parse back to exactly the content and the form is not marked truncated; longer contents are marked truncated and show exactly the first MAX_CHARS*4 bits. '
-          'MAX_CHARS is read from the working tree each run. str/repr round trips (class, pos, lsb0), truncation marks, pp (digits in order, columns, trailing bits, no escapes under no_color) and Array.__repr__ are oracle-checked.'),
-    note='PARTIAL: pp layout (group splitting, line width) is checked by the oracle only; repr/eval round trip is oracle-only.',
-    technique='Coq proof (digit-chunk induction) + vm_compute correspondence + output-parsing oracle', design='§5 C19'),
+          'Coq theorems over the model of the _pp layout arithmetic (bits per line and characters per line for grouped and ungrouped, one and two formats, offset column): a full line is wider than `width` only when it holds a single unit, '
+          'a line never splits a group, and every line makes progress; the model is compared with the implementation (bits and characters of the first full line) on every run. '
+          'MAX_CHARS is read from the working tree each run. str/repr round trips (class, pos, lsb0), truncation marks, pp digits in order / columns / trailing bits / width / no escapes under no_color, and Array.__repr__ are oracle-checked.'),
+    note='PARTIAL: repr/eval round trip, the digit content of pp lines and Array.__repr__ are oracle-only; the pp theorems cover the layout arithmetic (msb0 order of columns; the same numbers under lsb0).',
+    technique='Coq proof (digit-chunk induction; nia over the layout arithmetic) + vm_compute correspondence + output-parsing oracle', design='§5 C19'),
  'C20': dict(
     text=('Coq theorems for the modelled API: every mutator either succeeds or raises a documented exception - never AssertionError, AttributeError, KeyError, ZeroDivisionError or an exhausted fuel (from the refinement to the list spec); '
           'the exp-Golomb decoders terminate from any non-negative position in any data and fail only with ReadError (fuel sufficiency proved); repetition terminates for every n>=0. '
